@@ -39,7 +39,15 @@ Definition cksum (l : list byte) : N :=
 Record obs := mkObs { o_cls : N; o_st : bool; o_vlen : N; o_vdg : N; o_llen : N; o_ldg : N;
                       o_req : N; o_max : N; o_calls : N }.
 
+(* one stream of a concurrent run: K frames parsed at the same time by K goroutines, each over its own
+   reader.  The parsers share no state - a parser reads only its own stream and the model has no global
+   state - so the model of a concurrent run is the K sequential runs, whatever the interleaving: every
+   stream is compared with the sequential model of its own script.  A disagreement therefore means that
+   the implementation let one stream influence another. *)
+Record cstream := mkCS { cs_f : fn; cs_segs : list seg; cs_cuts : list N; cs_obs : obs }.
+
 Inductive case :=
+| CConc (l : list cstream)
 | CRead (f : fn) (segs : list seg) (cuts : list N) (o : obs)
 | CWrite (f : fn) (ok : bool) (a b n : N) (pad : list byte) (len dg : N)
 | CPut (v bl : N) (res : option (N * list byte)).
@@ -71,6 +79,9 @@ Definition obs_eqb (a b : obs) : bool :=
 
 Definition check (c : case) : bool :=
   match c with
+  | CConc l =>
+      forallb (fun s => obs_eqb (cs_obs s)
+                          (model_obs (cs_f s) (mk_script (concat (map seg_bytes (cs_segs s))) (cs_cuts s)))) l
   | CRead f segs cuts o =>
       obs_eqb o (model_obs f (mk_script (concat (map seg_bytes segs)) cuts))
   | CWrite f ok a b n pad len dg =>
